@@ -278,8 +278,16 @@ def rows_of(y, rows):
     return [float(v) for v in np.broadcast_to(np.asarray(y, dtype=float), (rows,))]
 
 
-def defuzz(fl, fuzzy, avg, ty, rows):
-    d = (fl.WeightedAverage if avg else fl.WeightedSum)(TYPES[ty])
+def fuzzy_state(fuzzy):
+    """Everything defuzzify could change in the Aggregated object: the list, the Activated objects, their terms, degrees (bits),
+    implications, the aggregation operator, and the printed form (term parameters)."""
+    return (tuple((id(a), id(a.term), np.asarray(a.degree, dtype=float).tobytes(), id(a.implication)) for a in fuzzy.terms),
+            id(fuzzy.aggregation), repr(fuzzy))
+
+
+def defuzz(fl, fuzzy, avg, ty, rows, inst=None):
+    """`inst`: a defuzzifier instance shared by consecutive calls (None: a fresh one)."""
+    d = inst if inst is not None else (fl.WeightedAverage if avg else fl.WeightedSum)(TYPES[ty])
     try:
         y = d.defuzzify(fuzzy, math.nan, math.nan)
     except (TypeError, RuntimeError, ValueError) as ex:
@@ -287,12 +295,30 @@ def defuzz(fl, fuzzy, avg, ty, rows):
     return None, rows_of(y, rows)
 
 
-def run_impl(fl, case):
-    """Everything observed on the batch (or scalar) object, split into rows."""
+def run_impl(fl, case, shared=None):
+    """Everything observed on the batch (or scalar) object, split into rows.  `shared`: {(avg, ty): defuzzifier instance}
+    reused across ALL the fuzzy outputs of the run (kinds TakagiSugeno / Tsukamoto / inverse / mixed / empty follow each
+    other in random order); the model is stateless, so any state kept in the instance shows up in the correspondence.
+    `mutated`: what a defuzzify call changed in the defuzzifier or in the Aggregated object (nothing is documented)."""
     set_inputs(case)
     fuzzy = build_fuzzy(fl, case)
     R = case.rows
-    res = [defuzz(fl, fuzzy, avg, ty, R) for avg, ty in CONFIGS]
+    res, mutated = [], []
+    before = fuzzy_state(fuzzy)
+    for avg, ty in CONFIGS:
+        inst = shared.get((avg, ty)) if shared is not None else None
+        res.append(defuzz(fl, fuzzy, avg, ty, R, inst))
+        if inst is not None:
+            now = (inst.type.name, repr(inst))
+            fresh = (fl.WeightedAverage if avg else fl.WeightedSum)(TYPES[ty])
+            want = (fresh.type.name, repr(fresh))
+            if now != want or set(vars(inst)) != set(vars(fresh)):
+                mutated.append((avg, ty, f"the defuzzifier {want[1]} (type {want[0]}) is {now[1]} (type {now[0]}) after defuzzify"))
+                shared[(avg, ty)] = fresh  # go on with a clean instance
+            after = fuzzy_state(fuzzy)
+            if after != before:
+                mutated.append((avg, ty, f"defuzzify changed the Aggregated object: {before[2]} became {after[2]}"))
+                before = after
     groups = fuzzy.grouped_terms()
     gl = []
     for name, g in groups.items():
@@ -325,7 +351,7 @@ def run_impl(fl, case):
                 zr = getattr(t.obj, meth)(g["deg_obj"])
                 if not all(vlib.same_float(a, b) for a, b in zip(rows_of(zc, R), rows_of(zr, R))):
                     clone_diff += 1
-    return {"res": res, "groups": gl, "ad": ad, "vt": vt, "orc": orc, "clone_diff": clone_diff, "fuzzy": fuzzy}
+    return {"mutated": mutated, "res": res, "groups": gl, "ad": ad, "vt": vt, "orc": orc, "clone_diff": clone_diff, "fuzzy": fuzzy}
 
 
 def coq_lits(case, imp):
@@ -463,7 +489,11 @@ def oracle_row(fl, case, imp, r, verdict, stats):
         results[(avg, ty)] = (e, y)
         be, by = imp["res"][ci]
         if (e != be) or (e is None and not close(y[0], by[r], by[r])):
-            viol("batch:rows", f"{'WeightedAverage' if avg else 'WeightedSum'}({TYPES[ty]}) on the batch gives {be or by[r]!r} on row {r}, the scalar run gives {e or y[0]!r}", avg, ty)
+            if case.batch:
+                viol("batch:rows", f"{'WeightedAverage' if avg else 'WeightedSum'}({TYPES[ty]}) on the batch gives {be or by[r]!r} on row {r}, the scalar run gives {e or y[0]!r}", avg, ty)
+            else:
+                viol("defuzzifier:instance-state", f"{'WeightedAverage' if avg else 'WeightedSum'}({TYPES[ty]}) instance reused from the previous fuzzy outputs gives {be or by[r]!r} "
+                     f"on {describe(case, r)}, a fresh instance gives {e or y[0]!r}", avg, ty)
         dname = f"{'WeightedAverage' if avg else 'WeightedSum'}({TYPES[ty]})"
         if ty == 0:
             if len(kinds) > 1:
@@ -554,6 +584,7 @@ def run(ctx, build, verdict, ev):
     ndirected = len(cases)
     cases += [gen_case(fl, obs, rng) for _ in range(ctx.n(2000, 40000))]
     lits, index = [], []
+    shared = {(avg, ty): (fl.WeightedAverage if avg else fl.WeightedSum)(TYPES[ty]) for avg, ty in CONFIGS}
     dist: dict[str, int] = {}
     stats: dict[str, int] = {}
     nviol = clone_diff = evaluations = 0
@@ -566,7 +597,10 @@ def run(ctx, build, verdict, ev):
 
     with np.errstate(all="ignore"):
         for ci, case in enumerate(cases):
-            imp = run_impl(fl, case)
+            imp = run_impl(fl, case, shared)
+            for avg, ty, what in imp["mutated"]:
+                verdict.add_violation("defuzzify:mutates", f"{'WeightedAverage' if avg else 'WeightedSum'}({TYPES[ty]}).defuzzify({describe(case, 0)}): {what}", replay_dict(case, 0, avg, ty))
+                nviol += 1
             clone_diff += imp["clone_diff"]
             for g in imp["groups"]:
                 if g["idx"] is None or not g["key_ok"] or not g["impl_none"]:
@@ -628,7 +662,8 @@ def run(ctx, build, verdict, ev):
                  "engine) / Tsukamoto (6 monotonic shapes) / inverse (Triangle, Gaussian) / mixed; degrees 0, 1, k/8, random, NaN, +-inf, subnormal, -0.0; aggregation uniform over "
                  "9 S-norms + lambda + none; 35% batch of 2-4 rows (array and scalar degrees mixed); each output x {WeightedAverage, WeightedSum} x {Automatic, TakagiSugeno, "
                  "Tsukamoto} + grouped_terms + activation_degree, every row compared exactly with the Coq model; plus directed two/three-activation outputs with a zero-degree "
-                 "term of every class; non-trivial = distinct outputs with >= 2 activations and a finite result")
+                 "term of every class; ONE defuzzifier instance per (defuzzifier, type) is reused across all the outputs (kinds follow each other in random order) and compared with the "
+                 "stateless model and with fresh instances; non-trivial = distinct outputs with >= 2 activations and a finite result")
     c["distribution"] = dist
     c["oracle_stats"] = stats
     c["correspondence_mismatches"] = len(mism)
